@@ -72,6 +72,11 @@ SIGNIFICANT_STD = ("::eq", "::ne", "::lt", "::le", "::gt", "::ge", "::cmp", "::s
                    "::start_bound", "::end_bound", "Option::<T>::take", "Option::<T>::filter", "FnMut::call_mut", "::to_vec", "mem::transmute")
 
 
+def _A(role):
+    from .common import A
+    return A(role)
+
+
 def skeleton(body, rename=lambda s: s):
     """the ordered (reverse post-order) sequence of *significant* operations of a function: calls to
     functions of the crate, key comparisons, cursor/source operations, constructions of crate types,
@@ -101,6 +106,8 @@ def skeleton(body, rename=lambda s: s):
                 out.append((("call", "<indirect>"), s))
                 continue
             n = callee_name(c)
+            if n == _A("transmute_entry"):
+                continue      # an identity on the value (lifetime only, C17-R2): where it is applied is not part of the behaviour compared here
             local = c.get("resolved_local", c["local"]) if "resolved" in c else c["local"]
             if local or any(n.endswith(x) for x in SIGNIFICANT_STD):
                 v = verdict_at(body.facts, body, s)
